@@ -472,6 +472,7 @@ type resource struct {
 	chunked    bool
 	failFirst  int // answer 503 this many times first
 	cfMitigate bool
+	truncate   bool // announce the full length, send half of the body, then drop the connection
 	links      []string
 }
 
@@ -529,6 +530,8 @@ func (s *e2eSite) lookup(url string) resource {
 		return resource{status: 404, ctype: "text/html", body: []byte("<html><body>not found <img src=\"/never.png\"></body></html>")}
 	case c == 6:
 		res.failFirst = 1 + r.Intn(2)
+	case c == 8 && !isSeed:
+		res.truncate = true // the body is cut mid-stream: ProcessBody fails, this URL fails for good
 	case c == 7:
 		return resource{status: 403, ctype: "text/html", body: []byte("<html>challenge</html>"), cfMitigate: true}
 	}
@@ -618,6 +621,20 @@ func (s *e2eSite) ServeHTTP(w http.ResponseWriter, req *http.Request) {
 	}
 	if res.cfMitigate {
 		w.Header().Set("cf-mitigated", "challenge")
+	}
+	if res.truncate && len(body) > 20 && status == 200 {
+		w.Header().Set("Content-Length", fmt.Sprint(len(body)))
+		w.WriteHeader(status)
+		w.Write(body[:len(body)/2])
+		if fl, ok := w.(http.Flusher); ok {
+			fl.Flush()
+		}
+		if hj, ok := w.(http.Hijacker); ok {
+			if conn, _, err := hj.Hijack(); err == nil {
+				conn.Close()
+			}
+		}
+		return
 	}
 	if !res.chunked {
 		w.Header().Set("Content-Length", fmt.Sprint(len(body)))
